@@ -431,7 +431,8 @@ def generate(prop, rng, seed, index, tier):
         kind = rng.choice(['connect', 'disconnect', 'disconnect', 'destroy', 'drop', 'add_sink', 'connect'])
         live = [i for i in opname if i not in dropped]
         if kind == 'connect':
-            targets = [i for i in live if opname[i] in ('union', 'zip', 'combine_latest', 'map', 'filter')]
+            # (sinks too: a consumer moved from one stream to another stays registered until it is destroyed)
+            targets = [i for i in live if opname[i] in ('union', 'zip', 'combine_latest', 'map', 'filter', 'sink') and i not in destroyed]
             if not targets:
                 continue
             v = rng.choice(targets)
@@ -443,7 +444,7 @@ def generate(prop, rng, seed, index, tier):
             ups[v].append(u)
             kids[u].append(v)
         elif kind == 'disconnect':
-            edges = [(u, v) for v in live for u in ups[v] if u not in dropped and opname[v] != 'sink']
+            edges = [(u, v) for v in live for u in ups[v] if u not in dropped]
             if not edges:
                 continue
             u, v = rng.choice(edges)
